@@ -331,12 +331,18 @@ theorem boundary_iff_outside_box (norm : V3 K → K) (sqrt : K → K) (o : Orien
 
 /-- **boundary_iff_outside** (cylinder): the radius is `sqrt(smallest²) - width` (refused when not positive); an atom
     is re-typed exactly when its displaced position is farther than the radius from the line through the Cartesian
-    origin along the box vector of the dislocation line. -/
+    origin along the box vector of the dislocation line.  `norm` (`numpy.linalg.norm`) has to be the Euclidean length
+    only on the vectors the code applies it to: the box vector along the line and `pos × axis` of every atom
+    (statement audit: the hypothesis was `∀ v`, which no function on ℚ satisfies). -/
 theorem boundary_iff_outside_cylinder (norm : V3 K → K) (sqrt : K → K) (o : Orient) (width : K) (hw : 0 < width)
     (nsym : Nat) (base disl d : Sys K) (h : monopoleBoundary sqrt o .cylinder width nsym base disl = some d)
     (hL : 0 < norm (base.box.vects.row o.line) ∧
       norm (base.box.vects.row o.line) * norm (base.box.vects.row o.line) = V3.normSq (base.box.vects.row o.line))
-    (hn : ∀ v : V3 K, 0 ≤ norm v ∧ norm v * norm v = V3.normSq v) :
+    (hn : ∀ a ∈ disl.atoms,
+      0 ≤ norm (V3.cross a.pos (V3.smul (1 / norm (base.box.vects.row o.line)) (base.box.vects.row o.line))) ∧
+      norm (V3.cross a.pos (V3.smul (1 / norm (base.box.vects.row o.line)) (base.box.vects.row o.line))) *
+        norm (V3.cross a.pos (V3.smul (1 / norm (base.box.vects.row o.line)) (base.box.vects.row o.line)))
+        = V3.normSq (V3.cross a.pos (V3.smul (1 / norm (base.box.vects.row o.line)) (base.box.vects.row o.line)))) :
     0 < cylRadius sqrt o.motion o.cut o.line base.box width ∧
     ∀ (i : Nat) (a : Atom K), disl.atoms[i]? = some a →
       (CylinderOutside norm (base.box.vects.row o.line) (cylRadius sqrt o.motion o.cut o.line base.box width) a.pos →
@@ -355,7 +361,7 @@ theorem boundary_iff_outside_cylinder (norm : V3 K → K) (sqrt : K → K) (o : 
   unfold CylinderOutside
   rw [← outsideCyl_iff (base.box.vects.row o.line) a.pos _ (norm (base.box.vects.row o.line))
     (norm (V3.cross a.pos (V3.smul (1 / norm (base.box.vects.row o.line)) (base.box.vects.row o.line))))
-    hL.1 hL.2 (hn _).1 (hn _).2 hr.le]
+    hL.1 hL.2 (hn a (List.mem_of_getElem? ha)).1 (hn a (List.mem_of_getElem? ha)).2 hr.le]
   constructor
   · intro ho; rw [if_pos ho]
   · intro ho; rw [if_neg ho]
@@ -972,6 +978,62 @@ example : (match periodicArray Rat.floor C14.roundHalfEven (1 / 1000) exU exO
       (1 / 100000000) (1 / 100000000) (1 / 100000) 1 with
     | .ok r => some (r.oldId, r.expected, r.disl.pbc)
     | .error _ => none) = some ([0, 1, 2, 3], 0, ⟨true, true, false⟩) := by decide +kernel
+
+/-! ### statement audit: further non-vacuity examples (all hypotheses, non-trivial values) -/
+
+-- `shift_between_planes` / `shift_by_index_between_planes`: layers at 0, 1, 3 in a period of 4
+example := shift_between_planes ([0, 1, 3] : List ℚ) 4 (1 / 100000000) (by norm_num) (by norm_num)
+  (by decide +kernel) 0 rfl (by decide +kernel)
+
+/-- the primitive cell of fcc (a = 1): a general, non-orthogonal `pv`. -/
+def fccPv : M3 ℚ := ⟨⟨0, 1 / 2, 1 / 2⟩, ⟨1 / 2, 0, 1 / 2⟩, ⟨1 / 2, 1 / 2, 0⟩⟩
+
+-- `uvws_zone_law`, `uvws_right_handed`, `searchM_optimal`, `searchN_optimal` on fcc, slip plane (111), line [1 -1 0]
+-- of the primitive cell: accepted, all hypotheses hold (ξ lies in the plane, `pv` non-degenerate, `N ≠ 0`)
+example : (setCells (0 : ℚ) fccPv ⟨1, 1, 1⟩ ⟨-1 / 2, 1 / 2, 0⟩ ⟨1, -1, 0⟩ .y .z 1).map (·.uvws)
+      = .ok ⟨⟨1, -1, 0⟩, ⟨0, 1, -1⟩, ⟨1, 1, 1⟩⟩ ∧
+    cart fccPv ⟨1, -1, 0⟩ = (⟨-1 / 2, 1 / 2, 0⟩ : V3 ℚ) ∧ V3.dot (⟨-1 / 2, 1 / 2, 0⟩ : V3 ℚ) ⟨1, 1, 1⟩ = 0 ∧
+    M3.det fccPv ≠ 0 ∧ 0 < V3.normSq (⟨1, 1, 1⟩ : V3 ℚ) ∧
+    (∀ v ∈ allUvws 1, 0 < V3.normSq (cart fccPv v)) := by decide +kernel
+
+/-- reference system of the array examples: 1 x 2 x 2 cells, slip plane midway. -/
+def exBase : Sys ℚ := baseSystem Rat.floor (1 / 1000) exRcell exSz ⟨0, 0, 1 / 2⟩
+
+-- `array_old_id`, `array_deletion_count_partial`, `array_kept_boundary_atoms_apart`: an array of EDGE dislocations
+-- (b = [010] along the motion direction): the tilted cell is non-degenerate (`hdet`), one atom (index 0) is found
+-- twice and deleted, `expected = 4 (1 - 1.5/2) = 1`, the three kept atoms map back to 1, 2, 3
+example : (match periodicArray Rat.floor C14.roundHalfEven (1 / 1000) exU exO exBase ⟨0, 1, 0⟩ ⟨0, 0, 0⟩ true 0 (1 / 2)
+      (1 / 100000000) (1 / 100000000) (1 / 100000) 1 with
+    | .ok r => some (r.oldId, r.expected, r.dups, r.disl.pbc, r.disl.atoms.length)
+    | .error _ => none) = some ([1, 2, 3], 1, [0], ⟨true, true, false⟩, 3) ∧
+    M3.det (tiltedVects exO exBase.box.vects (⟨0, 1, 0⟩ : V3 ℚ)) ≠ 0 := by decide +kernel
+
+/-- a 1 x 3 x 4 cell: with the shift (0, 3/2, 2) the four atoms of the 1 x 2 x 2 reference system sit at
+    `(0, ±3/2, ±2)`, at the rational distance 5/2 from the line. -/
+def exRcellC : Sys ℚ := ⟨⟨⟨⟨1, 0, 0⟩, ⟨0, 3, 0⟩, ⟨0, 0, 4⟩⟩, ⟨0, 0, 0⟩⟩, ⟨true, true, true⟩, [⟨1, ⟨0, 0, 0⟩, []⟩]⟩
+def exBaseC : Sys ℚ := baseSystem Rat.floor (1 / 1000) exRcellC exSz ⟨0, 3 / 2, 2⟩
+/-- moves the atom at `(0, -3/2, -2)` to `(0, 0, -2)` (distance 2 from the line), leaves the others. -/
+def exUC : V3 ℚ → V3 ℚ := fun p => if p.y < 0 ∧ p.z < 0 then ⟨0, 3 / 2, 0⟩ else ⟨0, 0, 0⟩
+def exDislC : Sys ℚ := monopoleRaw Rat.floor (1 / 1000) exUC 0 ⟨0, 0, 0⟩ exBaseC
+/-- the Euclidean length on the vectors that occur (squared lengths 1, 4, 25/4); `sqrt 9 = 3`. -/
+def exNormC (v : V3 ℚ) : ℚ :=
+  if V3.normSq v = 1 then 1 else if V3.normSq v = 4 then 2 else if V3.normSq v = 25 / 4 then 5 / 2 else 0
+def exSqrtC (x : ℚ) : ℚ := if x = 9 then 3 else 0
+
+-- `boundary_iff_outside_cylinder`: all hypotheses on this system (width 3/4, radius 3 - 3/4 = 9/4): the atom at
+-- distance 2 keeps its type, the three at distance 5/2 are re-typed
+example : (0 : ℚ) < 3 / 4 ∧
+    ((monopoleBoundary exSqrtC exO .cylinder (3 / 4) 1 exBaseC exDislC).map (fun d => d.atoms.map (·.atype)))
+      = some [1, 2, 2, 2] ∧
+    (0 < exNormC (exBaseC.box.vects.row exO.line) ∧
+      exNormC (exBaseC.box.vects.row exO.line) * exNormC (exBaseC.box.vects.row exO.line)
+        = V3.normSq (exBaseC.box.vects.row exO.line)) ∧
+    (∀ a ∈ exDislC.atoms,
+      0 ≤ exNormC (V3.cross a.pos (V3.smul (1 / exNormC (exBaseC.box.vects.row exO.line)) (exBaseC.box.vects.row exO.line))) ∧
+      exNormC (V3.cross a.pos (V3.smul (1 / exNormC (exBaseC.box.vects.row exO.line)) (exBaseC.box.vects.row exO.line))) *
+        exNormC (V3.cross a.pos (V3.smul (1 / exNormC (exBaseC.box.vects.row exO.line)) (exBaseC.box.vects.row exO.line)))
+        = V3.normSq (V3.cross a.pos (V3.smul (1 / exNormC (exBaseC.box.vects.row exO.line)) (exBaseC.box.vects.row exO.line)))) ∧
+    cylRadius exSqrtC exO.motion exO.cut exO.line exBaseC.box (3 / 4) = 9 / 4 := by decide +kernel
 
 end examples
 
